@@ -102,6 +102,16 @@ def reading_conventions(res, rng):
                   lambda rs: sky(rs[0], lon, lat, 'fk5') and abs(rs[0].radius.to_value('deg') - rad) < 1e-9, 'rad notation'))
     cases.append((f'#CRTF\nglobal coord=J2000\ncircle[[{x0}pix, {y0}pix], 3pix], coord=image',
                   lambda rs: type(rs[0]).__name__ == 'CirclePixelRegion' and abs(rs[0].center.x - x0) < 1e-9 and abs(rs[0].radius - 3) < 1e-9, 'pix notation / image frame'))
+    # a pixel ellipse / rotbox angle keeps its own unit; successive global lines accumulate
+    ar = round(rng.uniform(0.1, 1.4), 3)
+    cases.append((f'#CRTF\nglobal coord=J2000\nellipse[[{x0}pix, {y0}pix], [5pix, 2pix], {ar}rad], coord=image',
+                  lambda rs: type(rs[0]).__name__ == 'EllipsePixelRegion' and abs(rs[0].angle.to_value('rad') - ar) < 1e-9, 'pixel ellipse angle in rad'))
+    cases.append((f'#CRTF\nglobal coord=J2000\nrotbox[[{x0}pix, {y0}pix], [5pix, 2pix], {ar}rad], coord=image',
+                  lambda rs: type(rs[0]).__name__ == 'RectanglePixelRegion' and abs(rs[0].angle.to_value('rad') - ar) < 1e-9, 'pixel rotbox angle in rad'))
+    cases.append((f'#CRTF\nglobal coord=GALACTIC\nglobal color=green\ncircle[[{lon}deg, {lat}deg], {rad}deg]',
+                  lambda rs: sky(rs[0], lon, lat, 'galactic') and rs[0].visual.get('color') == 'green', 'two global lines: both apply'))
+    cases.append((f'#CRTF\nglobal coord=GALACTIC, color=green\nglobal color=red\ncircle[[{lon}deg, {lat}deg], {rad}deg]',
+                  lambda rs: sky(rs[0], lon, lat, 'galactic') and rs[0].visual.get('color') == 'red', 'a later global line overrides only the keys it repeats'))
     # the text of a text region is what stands between its quotes, verbatim (also a quote character of the other kind at either end)
     for quoted, want in (("'scale 12\"'", 'scale 12"'), ('"beam 30\'"', "beam 30'"), ("'plain words'", 'plain words'), ('"\'quoted\' name"', "'quoted' name")):
         cases.append((f'#CRTF\nglobal coord=J2000\ntext[[{lon}deg, {lat}deg], {quoted}]',
